@@ -15,6 +15,7 @@ from sa import core, cyfront, linabs
 from sa.fm import cstr
 
 RULES = {
+    "R-C09-alias": "the memoryviews a kernel indexes are distinct storage: no two of them are slices of the same local array with one of them written (a store through one would move the bounds read through the other)",
     "R-C09-lower": "index >= 0 at every unchecked memoryview access (wraparound=False), or >= -len if wraparound is on",
     "R-C09-upper": "index <= len(buffer) - 1 at every unchecked memoryview access",
     "R-C09-xcheck": "(thorough) an exact bounded walk with 3 loop iterations cross-checks the proof",
@@ -162,6 +163,28 @@ def main(tier):
                     rep.undecided("R-C09-raw", "%s@%d" % (where, n.pos[1]), "%s on memoryview storage" % n.function.name, "block copy between contiguous buffers: the byte count is not bounded by this analysis")
     if n_raw == 0:
         rep.proved("R-C09-raw", "set_operations", "no raw memory call in any kernel", "%d functions scanned for memcpy / memmove / memset / memcmp" % len(funcs))
+    # R-C09-alias: the bounds proof treats every memoryview as its own storage; two views of one array, one of them written,
+    # break that (zero expected on today's tree; positive example: seeded/C09h)
+    from sa import cystate
+    al = cystate.aliased_views(tree)
+    for status, where_a, cons_a, detail_a in al:
+        rep.add("R-C09-alias", where_a, cons_a, status, detail_a, True, {"inputs": "set_union_merge_many([[1, 5], [2, 9]]) returns [1, 2, 5, 2]; a 2-element array plus a long one writes far behind the output buffer"} if status == "VIOLATED" else None)
+    if not al:
+        rep.proved("R-C09-alias", "set_operations", "no two memoryviews of a kernel are views of the same local array", "%d kernels scanned" % len(funcs))
+    # cdef / cpdef functions are not visited by the bounds engine (it reads `def` kernels): one that touches array memory
+    # is reported, never passed over
+    from sa.cyfront import cfunctions
+    cdefs = cfunctions(tree)
+    for cname, cnode in cdefs:
+        touches = [x for x in walk(cnode.body) if tname(x) in ("MemoryViewIndexNode", "MemoryViewSliceNode", "BufferIndexNode")
+                   or (tname(x) == "IndexNode" and "*" in str(getattr(getattr(x, "base", None), "type", "")))
+                   or (tname(x) == "SimpleCallNode" and tname(x.function) == "NameNode" and x.function.name in ("memcpy", "memmove", "memset", "memcmp"))]
+        if touches:
+            rep.undecided("R-C09-scope", "set_operations:%s@%d" % (cname, touches[0].pos[1]), "cdef function %s accesses array memory" % cname,
+                          "%d access(es) in a cdef function: outside the bounds analysis (only `def` kernels are analysed)" % len(touches))
+        else:
+            rep.proved("R-C09-scope", "set_operations:%s" % cname, "cdef function %s accesses no array memory" % cname, "", nontrivial=False)
+    rep.analysed["cdef_functions"] = [c for c, _ in cdefs]
     rep.analysed["kernels"] = analysed
     rep.analysed["content_aware_kernels"] = many
     for dk in DECLINED:
